@@ -436,7 +436,7 @@ pub fn apply_content_faults(
                     contents = f.text.clone();
                 }
             }
-            FaultKind::Trivia => contents = insert_trivia(&contents, f.a),
+            FaultKind::Trivia => contents = insert_trivia(&contents, f.a, f.b == 1),
             FaultKind::LongLines => contents = long_lines(&contents, f.a),
             FaultKind::Cr => contents = contents.replace("\r\n", "\n").replace('\n', "\r"),
             FaultKind::Control => {
@@ -514,7 +514,9 @@ pub fn long_lines(text: &str, seed: u64) -> String {
 /// words are runs of [A-Za-z0-9_.], punctuation runs are never split, nothing is inserted directly
 /// after `<` or `>` (adjacency is significant there by design), and lines that are directives or
 /// contain strings, comments or splices are left alone.
-pub fn insert_trivia(text: &str, seed: u64) -> String {
+/// (`no_splices`: the same insertions at the same places, with every backslash-newline replaced by
+/// a blank - the variant the reference model can read)
+pub fn insert_trivia(text: &str, seed: u64, no_splices: bool) -> String {
     let mut rng = crate::prng::Rng::new(seed).sub("trivia");
     let mut out = String::with_capacity(text.len() + text.len() / 4);
     let mut in_directive_continuation = false;
@@ -554,6 +556,21 @@ pub fn insert_trivia(text: &str, seed: u64) -> String {
             || !body.is_ascii();
         in_directive_continuation =
             (trimmed.starts_with('#') || in_directive_continuation) && body.ends_with('\\');
+        if trimmed.starts_with('#')
+            && !was_in_comment
+            && body.is_ascii()
+            && !body.contains('\\')
+            && !body.contains("//")
+            && !body.contains("/*")
+            && !body.contains("*/")
+            && !body.contains('\'')
+            && !(untouchable && body.contains('"') && !trimmed[1..].trim_start().starts_with("include"))
+            && rng.chance(1, 3)
+        {
+            out.push_str(&directive_trivia(body, &mut rng, no_splices));
+            out.push_str(&line[body.len()..]);
+            continue;
+        }
         if untouchable || trimmed.is_empty() {
             out.push_str(line);
             continue;
@@ -610,8 +627,13 @@ pub fn insert_trivia(text: &str, seed: u64) -> String {
             {
                 // a comment next to '/' or '*' would form another comment delimiter
                 let near_slash = matches!(p, '/' | '*') || matches!(chars[i], '/' | '*');
-                let choice = rng.below(8) as usize;
-                let t = [" ", "\t", "/*t*/", " /* t */ ", "\\\n", "  \\\n  ", "\n", " \n  "][choice];
+                let choice = rng.below(12) as usize;
+                // (comments whose body starts or ends with the characters of a delimiter, and one
+                // with multi-byte characters whose UTF-8 bytes cover 0x8A, 0x8D, 0xA0, 0xBF ...)
+                let t = [
+                    " ", "\t", "/*t*/", " /* t */ ", "\\\n", "  \\\n  ", "\n", " \n  ",
+                    "/*/ t */", "/*/*/", " /*// t **/ ", "/* \u{304a}\u{00ca}\u{010a}\u{00a0}\u{07ff}\u{6cd5} */",
+                ][choice];
                 // a bare line break between a name and "(" is left out: whether a function-like
                 // macro use may be split there is not what the statement's two exceptions settle
                 // RSSL does not look across a bare line break for the "(" of a function-like macro
@@ -620,7 +642,10 @@ pub fn insert_trivia(text: &str, seed: u64) -> String {
                 // after argument substitution either: in front of "," ")" and ";"
                 let bare_newline = t.contains('\n') && !t.contains('\\');
                 let newline_ok = matches!(chars[i], ',' | ')' | ';');
-                out.push_str(if near_slash && t.contains("/*") || bare_newline && !newline_ok {
+                out.push_str(if near_slash && t.contains("/*")
+                    || bare_newline && !newline_ok
+                    || no_splices && t.contains('\\')
+                {
                     " "
                 } else {
                     t
@@ -635,7 +660,7 @@ pub fn insert_trivia(text: &str, seed: u64) -> String {
         out.push_str(&line[body.len()..]);
     }
     // the end of the file is a token boundary too: a splice after the last line
-    if out.ends_with('\n') && !out.ends_with("\\\n") && rng.chance(1, 5) {
+    if out.ends_with('\n') && !out.ends_with("\\\n") && rng.chance(1, 5) && !no_splices {
         if rng.chance(1, 2) {
             // the last line itself ends in a splice
             out.pop();
@@ -646,6 +671,101 @@ pub fn insert_trivia(text: &str, seed: u64) -> String {
         } else {
             out.push_str(["\\\n", "  \\\n", "\\\n\n"][rng.below(3) as usize]);
         }
+    }
+    out
+}
+
+/// Trivia at the token boundaries of a directive line (the statement's two exceptions - directly
+/// after < or >, between a macro's name and its parameter list - and the inside of an include
+/// string are left alone; so is the gap in front of the directive's name). No bare line breaks
+/// and no line comments: those end the directive.
+fn directive_trivia(body: &str, rng: &mut crate::prng::Rng, no_splices: bool) -> String {
+    let chars: Vec<char> = body.chars().collect();
+    let is_word = |c: char| c.is_ascii_alphanumeric() || c == '_' || c == '.';
+    // units: words, single punctuation characters, runs of blanks
+    let mut units: Vec<String> = Vec::new();
+    let mut i = 0;
+    while i < chars.len() {
+        let c = chars[i];
+        let mut j = i + 1;
+        if is_word(c) {
+            while j < chars.len() && is_word(chars[j]) {
+                j += 1;
+            }
+        } else if c == ' ' || c == '\t' {
+            while j < chars.len() && (chars[j] == ' ' || chars[j] == '\t') {
+                j += 1;
+            }
+        } else if c == '"' {
+            // an include string is one unit
+            while j < chars.len() && chars[j] != '"' {
+                j += 1;
+            }
+            j = (j + 1).min(chars.len());
+        } else if !matches!(c, '(' | ')' | ',') {
+            // a run of operator characters is one unit (&&, ==, ##, <=)
+            while j < chars.len()
+                && !is_word(chars[j])
+                && !matches!(chars[j], ' ' | '\t' | '"' | '(' | ')' | ',')
+            {
+                j += 1;
+            }
+        }
+        units.push(chars[i..j].iter().collect());
+        i = j;
+    }
+    let blank = |u: &str| u.starts_with([' ', '\t']);
+    // the directive's name is the first word after '#'
+    let Some(name_at) = units.iter().position(|u| u.starts_with(|c: char| c.is_ascii_alphabetic())) else {
+        return body.to_string();
+    };
+    let name = units[name_at].clone();
+    let is_define = name == "define";
+    let is_include = name == "include";
+    // in "#define NAME(" nothing may come between NAME and "("
+    let macro_name_at = if is_define {
+        units.iter().enumerate().skip(name_at + 1).find(|(_, u)| !blank(u)).map(|(k, _)| k)
+    } else {
+        None
+    };
+    let mut out = String::new();
+    let mut seen_string = false;
+    // inside a float literal with a signed exponent (1.5e+38f) there is no token boundary
+    let mut glued = 0u8;
+    for (k, u) in units.iter().enumerate() {
+        let prev = if k > 0 { units[..k].iter().rev().find(|x| !blank(x)) } else { None };
+        let in_literal = glued > 0 && !blank(u);
+        if in_literal {
+            glued -= 1;
+        }
+        if u.starts_with(|c: char| c.is_ascii_digit() || c == '.')
+            && u.ends_with(['e', 'E'])
+            && units.get(k + 1).is_some_and(|n| n == "+" || n == "-")
+            && units.get(k + 2).is_some_and(|n| n.starts_with(|c: char| c.is_ascii_digit()))
+        {
+            glued = 2;
+        }
+        let boundary = !in_literal
+            && k > name_at
+            && !blank(u)
+            && prev.is_some_and(|p| !p.ends_with(['<', '>']))
+            && !(macro_name_at.is_some_and(|m| k == m + 1) && u == "(")
+            // (angle-bracket include operands are not tokenised as strings here: leave them)
+            && !(is_include && (seen_string || u == "<" || prev.is_some_and(|p| p == "<")))
+            && !(is_include && !u.starts_with('"'));
+        if boundary && rng.chance(1, 3) {
+            let near_slash = u.starts_with(['/', '*']) || prev.is_some_and(|p| p.ends_with(['/', '*']));
+            let t = [" ", "\t", "/*t*/", " /* t */ ", "\\\n", " \\\n  "][rng.below(6) as usize];
+            out.push_str(if near_slash && t.contains("/*") || no_splices && t.contains('\\') { " " } else { t });
+        }
+        if u.starts_with('"') {
+            seen_string = true;
+        }
+        out.push_str(u);
+    }
+    // the end of the directive is a boundary too
+    if !is_include && rng.chance(1, 4) {
+        out.push_str([" ", " /* t */", "\t"][rng.below(3) as usize]);
     }
     out
 }
